@@ -20,8 +20,8 @@ RULE = (
     "Non-trivial = grid_n >= 3 with a solution of >= 2 cells; distinct by canonical case digest."
 )
 ASSUMPTIONS = [
-    "the token stream carries no grid size; it is recovered from the largest index occurring in a connection, so mazes are generated (connected ones, and sparse ones "
-    "whose last row or last column - not both - may be walled off) such that index n-1 occurs in some connection; other mazes are discarded and counted",
+    "the token stream carries no grid size; as the quantifier says, mazes are those in which every row and every column index occurs in some connection "
+    "(connected mazes, and sparse ones with several components / isolated cells that still satisfy this); other mazes are discarded and counted",
     "adjacency-list entries may come in any order and either orientation: streams are compared through the decoder, never token by token inside that region",
 ]
 
@@ -59,8 +59,10 @@ def check(case: dict):
 
     g, sol, kind, mode = case["g"], case["sol"], case["kind"], case["mode"]
     n = g["r"]
-    # the token stream carries no grid size: it is recovered from the largest index that occurs in a connection
-    if max((max(u[0], u[1], v[0], v[1]) for u, v in M.edges_of(g)), default=-1) != n - 1:
+    # the property quantifies over mazes in which every row and every column index occurs in some connection (the token stream
+    # carries no grid size; it has to be recovered from the indices that occur)
+    E_ = M.edges_of(g)
+    if {x[0] for e_ in E_ for x in e_} != set(range(n)) or {x[1] for e_ in E_ for x in e_} != set(range(n)):
         raise Discard()
     mgs = {"none": None, "n": n, "20": max(20, n)}[case["mgs"]]
     flavour = case["flavour"]
@@ -157,14 +159,25 @@ def _case(draw, hi):
 
 @st.composite
 def _sparse_case(draw, hi):
-    """mazes that are not connected: the last column or the last row (not both) may be walled off entirely, cells may be isolated"""
+    """mazes that are not connected (several components, isolated cells) but in which every row and column index occurs in a connection"""
     n = draw(st.sampled_from(list(range(2, min(hi, 9) + 1)) + [11]))
     g = draw(G.graphs(n, n))
-    wall = draw(st.sampled_from(["none", "last-col", "last-row"]))
+    # make sure every row and column index occurs: add one horizontal connection per row and one vertical connection per column where missing
+    wall = "none"
     bits = list(g["cl"])
-    for u, v in M.edges_of(g):
-        if (wall == "last-col" and n - 1 in (u[1], v[1])) or (wall == "last-row" and n - 1 in (u[0], v[0])):
-            bits[M.edge_bit(n, n, u, v)] = "0"
+    E0 = M.edges_of(g)
+    rows = {x[0] for e_ in E0 for x in e_}
+    cols = {x[1] for e_ in E0 for x in e_}
+    for i in range(n):
+        if i not in rows and n >= 2:
+            j = draw(st.integers(0, n - 2))
+            bits[M.edge_bit(n, n, (i, j), (i, j + 1))] = "1"
+    E0 = M.edges_of({"r": n, "c": n, "cl": "".join(bits)})
+    cols = {x[1] for e_ in E0 for x in e_}
+    for j in range(n):
+        if j not in cols and n >= 2:
+            i = draw(st.integers(0, n - 2))
+            bits[M.edge_bit(n, n, (i, j), (i + 1, j))] = "1"
     g = {"r": n, "c": n, "cl": "".join(bits)}
     a = M.adj(g)
     s = tuple(draw(G.cell_in(n, n)))
